@@ -17,6 +17,12 @@ C["C10"] = ("Coq theorems: (1) every operation of the buffered reader refines th
             "Tie: limits/table bounds regenerated from source; decoder, encoder, integer helpers and Reader operation sequences of the Go code run against the extracted model "
             "(chunked and flat) with values held to the end of each case.",
             "Source model: each Read delivers 1..len(p) bytes or an error; strconv modelled; slab aliasing only observed by the harness.", "DESIGN.md §4 C10")
+C["C17"] = ("Coq theorems: every frame with a payload that fits the read buffer round-trips; whatever readMessage accepts is exactly a frame sendMessage emits and a prefix of the bytes received "
+            "(nothing malformed is read as a different message) and reading never leaves the buffer; the dispatcher, evaluated over the message numbering, dispatch switch and handler bodies "
+            "regenerated from rpc.go/hotrestart.go, performs for every request type the documented step and acknowledgement, for every request sequence in order, skips malformed frames and "
+            "serves the next child after a child disappears. Tie: tables regenerated on every run; readMessage/sendMessage on raw bytes over a unix socket pair for every (declared, carried) length "
+            "pair on a grid; the public Restarter with a scripted Instance and raw children vs the model.",
+            "Lock-step protocol (one frame per read) assumed, as the real child obeys; kill replaced by a recorder; unix stream socket semantics.", "DESIGN.md §4 C17")
 checks = []
 for pid in sorted(C):
     text, note, ref = C[pid]
